@@ -632,7 +632,8 @@ func TestProp(t *testing.T) {
 			"geometry are skipped and counted. Oracle: every line segment is cut at its intersections with every polygon edge and the pieces whose midpoint is inside P " +
 			"(own even-odd test) are summed -> expected length; Clip's total Length must match (1e-9 relative to length+scale), every result vertex must be within 1e-9*scale of " +
 			"the input line and inside or on P, and the result is empty exactly when the expected length is 0. Non-trivial = the line crosses the boundary of P at least twice. Distinct by case hash." +
-			" Round 9: block-exit lines with long tails (K or 2K more vertices outside after the exit at vertex K).",
+			" Round 9: block-exit lines with long tails (K or 2K more vertices outside after the exit at vertex K)." +
+			" Round 10: junctions (1 single-line case in 8: the line cut at an inner vertex plus one or two spurs - three or four members ending in one point, shuffled and reversed).",
 		Assumptions: []string{"general position enforced by filter", "oracle in vkit (SegIntersection, PIP) trusted"},
 		Gen:         gen,
 		Run:         run,
